@@ -65,6 +65,14 @@ def templates(pyver, tier, rng=None):
         body += "    if fv:\n      x = fv\n    else:\n      x = fw\n    while x:\n      x -= fv\n      if x > fw: continue\n    return inner\n  return mid\n"
         add("cells-%d-free-jumps" % ncell, body)
     add("locals-300-jumps", "def f(a):\n" + "".join("  l%d = a\n" % i for i in range(300)) + "  while l299:\n    if l298: l299 = l0\n    else: l299 = l1\n  return l299\n")
+    # sibling functions on one line that are identical except inside the code nested in them (near twins: the compiler keeps both)
+    add("near-twin-lambdas", "lo, hi = (lambda xs: min(x for x in xs)), (lambda xs: min(-x for x in xs))\n")
+    add("near-twin-lambdas-in-def", "def f(x):\n    a, b, c = (lambda: [i for i in x]), (lambda: [i + 1 for i in x]), (lambda: [i for i in x])\n    return a, b, c\n")
+    add("near-twin-deeper", "p, q = (lambda: (lambda: (lambda: 1))), (lambda: (lambda: (lambda: 2)))\n")
+    add("near-twin-classes", "class A: f = lambda s: [1 for _ in s]\nclass A: f = lambda s: [2 for _ in s]\n")
+    # constants nested as deep as each interpreter's parser allows (3.7: ~92, 3.8: ~98, 3.9+: 200 levels)
+    for d in (30, 60, 90, 97, 150, 195):
+        add("const-nested-tuple-%d" % d, "x = " + "(" * d + "1" + ",)" * d + "\ny = " + "(" * d + "1.0" + ",)" * d + "\n")
     add("names-attr-chain", "x = " + ".".join("a%d" % i for i in range(300)) + "\n")
 
     # ---- jumps over bodies: forward (if / for) and backward (while), width classes
